@@ -7,9 +7,16 @@
 //!     is called at chosen places; `layers[0].sixels` after each poll vs `icydrv sixelqueue run`.
 //!     A poll that blocks is detected by a watchdog.
 //!
-//! Replay inputs: `<hex payload>` (code points 0..255, one byte each) or `q:<fw>|<fh>|<n>|<spec>…|<ev>…`.
+//! (c) files with 0..=5 sixel sequences loaded through `Buffer::from_bytes` under the stream-parsed extensions
+//!     (`parse_with_parser`): the image layers (number, offset, size in cells, pixel size, scales) vs
+//!     `icydrv sixelload load`; oracle: one image layer per delivered image (arrival-order placement with the
+//!     covering rule, computed by the harness), newest first, each a full rectangle; and single DCS strings fed to
+//!     a terminal buffer (`execute_dcs` hand-off) vs `icydrv sixelload dcs`.
+//!
+//! Replay inputs: `<hex payload>` (code points 0..255, one byte each), `q:<fw>|<fh>|<n>|<spec>…|<ev>…`,
+//! `l:<ext>|<fw>|<fh>|<sched>|<hex file>|<px,py,hex dcs>…` or `d:<px>|<py>|<hex dcs>`.
 use crate::util::*;
-use icy_engine::{ansi, Buffer, BufferParser, Caret, ParserError, Position, Sixel};
+use icy_engine::{ansi, Buffer, BufferParser, Caret, ParserError, Position, Sixel, TextPane};
 use std::collections::HashSet;
 use std::sync::atomic::{AtomicBool, AtomicU64, Ordering};
 use std::sync::{Condvar, Mutex, Once};
@@ -377,7 +384,12 @@ fn exhaustive(run: &mut Run, alphabet: &[u8], max_len: usize) {
 struct GateState {
     released: HashSet<usize>,
     release_all: bool,
+    /// decodes that panic once they are let through (exercises `let Ok(result) = handle.join() else { continue }`)
+    panic: HashSet<usize>,
 }
+
+/// payload marker: the decode thread of this sequence panics (the text sent is an ordinary small sixel)
+const PANIC_MARKER: &[u8] = b"\xffPANIC\xff";
 static GATE: Mutex<Option<GateState>> = Mutex::new(None);
 static GATE_CV: Condvar = Condvar::new();
 /// watchdog: deadline (ms since START) of the poll in progress, 0 = none
@@ -396,6 +408,11 @@ fn gate(seq: usize) {
     loop {
         let st = g.as_ref().unwrap();
         if st.release_all || st.released.contains(&seq) {
+            let boom = st.panic.contains(&seq);
+            drop(g); // never panic while holding the lock
+            if boom {
+                panic!("verif: simulated panic of a sixel decode thread");
+            }
             return;
         }
         g = GATE_CV.wait(g).unwrap();
@@ -405,7 +422,7 @@ fn gate(seq: usize) {
 fn init_gate() {
     INIT.call_once(|| {
         *START.lock().unwrap() = Some(Instant::now());
-        *GATE.lock().unwrap() = Some(GateState { released: HashSet::new(), release_all: false });
+        *GATE.lock().unwrap() = Some(GateState { released: HashSet::new(), release_all: false, panic: HashSet::new() });
         *icy_engine::VERIF_SIXEL_GATE.write().unwrap() = Some(gate);
         std::thread::spawn(|| loop {
             std::thread::sleep(Duration::from_millis(20));
@@ -429,6 +446,7 @@ fn release_all(on: bool) {
     st.release_all = on;
     if !on {
         st.released.clear();
+        st.panic.clear();
     }
     drop(g);
     GATE_CV.notify_all();
@@ -445,13 +463,18 @@ enum Ev {
     Arrive(usize),
     Finish(usize),
     Poll,
+    /// a clear-screen sequence (`ESC[2J`, `ESC[3J` or form feed, chosen by the number)
+    Clear(u8),
 }
+
+const CLEAR_SEQS: &[&str] = &["\x1b[2J", "\x1b[3J", "\x0c"];
 
 fn ev_str(e: &Ev) -> String {
     match e {
         Ev::Arrive(i) => format!("a{}", i),
         Ev::Finish(i) => format!("f{}", i),
         Ev::Poll => "p".to_string(),
+        Ev::Clear(_) => "c".to_string(),
     }
 }
 
@@ -504,6 +527,9 @@ fn scenario(run: &mut Run, specs: &[Spec], events: &[Ev]) {
     let decs: Vec<Dec> = specs
         .iter()
         .map(|sp| {
+            if sp.payload == PANIC_MARKER {
+                return Dec::Panicked;
+            }
             let s = to_string(&sp.payload);
             let pos = Position::new(sp.px, sp.py);
             match catch(move || Sixel::parse_from(pos, 1, 2, [0xff, 0, 0, 0], &s)) {
@@ -519,7 +545,7 @@ fn scenario(run: &mut Run, specs: &[Spec], events: &[Ev]) {
         fh,
         specs.len(),
         specs.iter().map(|s| format!("{},{},{}", s.px, s.py, hex(&s.payload))).collect::<Vec<_>>().join("|"),
-        events.iter().map(ev_str).collect::<Vec<_>>().join("|")
+        events.iter().map(|e| if let Ev::Clear(k) = e { format!("c{}", k) } else { ev_str(e) }).collect::<Vec<_>>().join("|")
     );
     let op = format!(
         "sixelqueue run {} {} {} {} {}",
@@ -541,7 +567,11 @@ fn scenario(run: &mut Run, specs: &[Spec], events: &[Ev]) {
                 let sp = &specs[i];
                 let seq = icy_engine::VERIF_SIXEL_SEQ.load(Ordering::SeqCst);
                 let before = buf.sixel_threads.len();
-                let text = format!("\x1b[{};{}H\x1bPq{}\x1b\\", sp.py + 1, sp.px + 1, to_string(&sp.payload));
+                let boom = sp.payload == PANIC_MARKER;
+                if boom {
+                    GATE.lock().unwrap().as_mut().unwrap().panic.insert(seq);
+                }
+                let text = format!("\x1b[{};{}H\x1bPq{}\x1b\\", sp.py + 1, sp.px + 1, if boom { "~".to_string() } else { to_string(&sp.payload) });
                 for ch in text.chars() {
                     let _ = parser.print_char(&mut buf, 0, &mut caret, ch);
                 }
@@ -553,12 +583,29 @@ fn scenario(run: &mut Run, specs: &[Spec], events: &[Ev]) {
                 seq_of[i] = Some(seq);
                 order.push(i);
             }
+            Ev::Clear(k) => {
+                for ch in CLEAR_SEQS[k as usize % CLEAR_SEQS.len()].chars() {
+                    let _ = parser.print_char(&mut buf, 0, &mut caret, ch);
+                }
+                if !buf.sixel_threads.is_empty() || !buf.layers[0].sixels.is_empty() {
+                    run.oracle_fail(
+                        "clear_keeps_images",
+                        &replay,
+                        &format!("after a clear-screen {} decodes are still queued and {} images still shown", buf.sixel_threads.len(), buf.layers[0].sixels.len()),
+                    );
+                    failed = true;
+                    break;
+                }
+                order.clear();
+                finished.clear();
+                prev_n = 0;
+            }
             Ev::Finish(i) => {
                 let Some(seq) = seq_of[i] else { continue };
                 release(seq);
                 // wait until the handle reports finished, so that the completion has really happened
                 let popped = order.len() - buf.sixel_threads.len();
-                let idx = order.iter().position(|&o| o == i).unwrap();
+                let Some(idx) = order.iter().position(|&o| o == i) else { continue }; // its handle was dropped by a clear
                 if idx >= popped {
                     let t0 = Instant::now();
                     while !buf.sixel_threads[idx - popped].is_finished() {
@@ -695,11 +742,14 @@ fn spec_sets(rng: &mut Rng, k: usize, n_sets: usize) -> Vec<Vec<Spec>> {
     sets.push((0..k).map(|i| menu[i].clone()).collect());
     sets.push((0..k).map(|i| menu[(k - 1 - i) % menu.len()].clone()).collect());
     sets.push((0..k).map(|i| menu[[5, 1, 0, 7][i]].clone()).collect());
+    // decode threads that panic between images that must still be delivered by the same poll
+    let boom = Spec { px: 0, py: 0, payload: PANIC_MARKER.to_vec() };
+    sets.push((0..k).map(|i| if i % 2 == 0 { boom.clone() } else { menu[[0, 0, 0, 1][i]].clone() }).collect());
     while sets.len() < n_sets {
         let mut s = vec![];
         for i in 0..k {
             if rng.chance(1, 8) {
-                s.push(Spec { px: 0, py: 0, payload: rng.pick(&[b" ".to_vec(), b"#1;2;3~".to_vec(), b"!~".to_vec()]).clone() });
+                s.push(Spec { px: 0, py: 0, payload: rng.pick(&[b" ".to_vec(), b"#1;2;3~".to_vec(), b"!~".to_vec(), PANIC_MARKER.to_vec()]).clone() });
             } else if rng.chance(1, 6) {
                 s.push(Spec { px: rng.range(0, 2) as i32, py: rng.range(0, 1) as i32, payload: gen_structured(rng) });
             } else {
@@ -761,6 +811,7 @@ fn random_events(rng: &mut Rng, k: usize) -> Vec<Ev> {
     let mut unfinished: Vec<usize> = vec![];
     let mut done = 0usize;
     let leave = if rng.chance(1, 5) { rng.below(k as u64 + 1) as usize } else { 0 }; // decodes never finishing
+    let with_clear = rng.chance(1, 4);
     while arrived < k || done + leave < k {
         match rng.below(3) {
             0 if arrived < k => {
@@ -773,7 +824,15 @@ fn random_events(rng: &mut Rng, k: usize) -> Vec<Ev> {
                 ev.push(Ev::Finish(unfinished.remove(j)));
                 done += 1;
             }
-            2 => ev.push(Ev::Poll),
+            2 => {
+                if with_clear && rng.chance(1, 5) {
+                    ev.push(Ev::Clear(rng.below(3) as u8));
+                    done += unfinished.len(); // their handles are gone
+                    unfinished.clear();
+                } else {
+                    ev.push(Ev::Poll)
+                }
+            }
             _ => {
                 if arrived >= k && unfinished.is_empty() {
                     break;
@@ -805,6 +864,7 @@ fn replay_scenario(run: &mut Run, s: &str) {
     for p in parts.iter().skip(3 + n) {
         let e = match p.as_bytes().first() {
             Some(b'p') => Ev::Poll,
+            Some(b'c') => Ev::Clear(p[1..].parse().unwrap_or(0)),
             Some(b'a') => Ev::Arrive(p[1..].parse().unwrap_or(0)),
             Some(b'f') => Ev::Finish(p[1..].parse().unwrap_or(0)),
             _ => continue,
@@ -818,10 +878,663 @@ fn replay_scenario(run: &mut Run, s: &str) {
     scenario(run, &specs, &evs);
 }
 
+
+// ------------------------------------------------------------------------------------------------ (c)
+
+fn b64(data: &[u8]) -> String {
+    const T: &[u8] = b"ABCDEFGHIJKLMNOPQRSTUVWXYZabcdefghijklmnopqrstuvwxyz0123456789+/";
+    let mut s = String::new();
+    for c in data.chunks(3) {
+        let n = (c[0] as u32) << 16 | (*c.get(1).unwrap_or(&0) as u32) << 8 | *c.get(2).unwrap_or(&0) as u32;
+        s.push(T[(n >> 18) as usize & 63] as char);
+        s.push(T[(n >> 12) as usize & 63] as char);
+        s.push(if c.len() > 1 { T[(n >> 6) as usize & 63] as char } else { '=' });
+        s.push(if c.len() > 2 { T[n as usize & 63] as char } else { '=' });
+    }
+    s
+}
+
+/// the gate (if an earlier replay installed it) must let the decodes of a load run
+fn gate_open(on: bool) {
+    if GATE.lock().unwrap().is_some() {
+        release_all(on);
+    }
+}
+
+/// the sixel payload of a DCS string as `execute_dcs` finds it: digits and `;`, then `q`
+fn dcs_payload(dcs: &[u8]) -> Option<&[u8]> {
+    if dcs.starts_with(b"CTerm:Font:") {
+        return None;
+    }
+    let i = dcs.iter().position(|b| !(b.is_ascii_digit() || *b == b';')).unwrap_or(dcs.len());
+    if dcs.get(i) == Some(&b'q') {
+        Some(&dcs[i + 1..])
+    } else {
+        None
+    }
+}
+
+/// marker in `LoadCase::specs`: a clear-screen sequence at this place of the file
+fn clear_marker() -> Spec {
+    Spec { px: -1, py: -1, payload: vec![] }
+}
+fn is_clear(sp: &Spec) -> bool {
+    sp.px < 0
+}
+/// the sequences that are sixels and arrive after the last clear-screen
+fn live_sixels(specs: &[Spec]) -> Vec<usize> {
+    let start = specs.iter().rposition(is_clear).map(|i| i + 1).unwrap_or(0);
+    (start..specs.len()).filter(|&i| dcs_payload(&specs[i].payload).is_some()).collect()
+}
+
+#[derive(Clone, Debug)]
+struct LoadCase {
+    ext: String,
+    fw: i64,
+    fh: i64,
+    sched: String,
+    file: Vec<u8>,
+    /// every DCS string of the file with the caret position the generator expects it to arrive at
+    specs: Vec<Spec>,
+}
+
+impl LoadCase {
+    fn replay(&self) -> String {
+        let mut s = format!("l:{}|{}|{}|{}|{}", self.ext, self.fw, self.fh, self.sched, hex(&self.file));
+        for sp in &self.specs {
+            if is_clear(sp) {
+                s.push_str("|c");
+            } else {
+                s.push_str(&format!("|{},{},{}", sp.px, sp.py, hex(&sp.payload)));
+            }
+        }
+        s
+    }
+    fn op(&self) -> String {
+        let mut s = format!("sixelload load {} {} {} {}", self.fw, self.fh, self.sched, self.specs.len());
+        for sp in &self.specs {
+            if is_clear(sp) {
+                s.push_str(" c");
+            } else {
+                s.push_str(&format!(" {},{},{}", sp.px, sp.py, hex(&sp.payload)));
+            }
+        }
+        s
+    }
+}
+
+struct LoadObs {
+    obs: String,
+    fails: Vec<(String, String)>,
+    counts: Vec<String>,
+    n_layers: usize,
+}
+
+fn ceil_div(a: i64, b: i64) -> i64 {
+    if b <= 0 {
+        return -1;
+    }
+    (a + b - 1).div_euclid(b)
+}
+
+/// load the file through the real crate and evaluate the property on the result
+fn observe_load(c: &LoadCase) -> LoadObs {
+    let mut fails: Vec<(String, String)> = vec![];
+    let mut counts: Vec<String> = vec![];
+    // reference decodes (synchronous, public API) of the sequences that are sixels
+    let decs: Vec<Dec> = c
+        .specs
+        .iter()
+        .map(|sp| match if is_clear(sp) { None } else { dcs_payload(&sp.payload) } {
+            None => Dec::Panicked, // not a sixel: never arrives
+            Some(pl) => {
+                let s = to_string(pl);
+                let pos = Position::new(sp.px, sp.py);
+                match catch(move || Sixel::parse_from(pos, 1, 1, [0, 0, 0, 0], &s)) {
+                    Ok(Ok(sx)) => Dec::Ok(sx),
+                    Ok(Err(_)) => Dec::Err,
+                    Err(_) => Dec::Panicked,
+                }
+            }
+        })
+        .collect();
+    let order: Vec<usize> = live_sixels(&c.specs);
+    if c.specs.iter().any(is_clear) {
+        counts.push("load:with-clear-screen".into());
+    }
+    let any_err = order.iter().any(|&i| matches!(decs[i], Dec::Err));
+    let expect: Vec<usize> = reference(order.len(), &order, &decs, c.fw, c.fh);
+    counts.push(format!("load:ext={}", c.ext));
+    counts.push(format!("load:sequences={}", order.len()));
+    if expect.len() < order.iter().filter(|&&i| matches!(decs[i], Dec::Ok(_))).count() {
+        counts.push("load:some-image-covered".into());
+    }
+    if order.iter().any(|&i| matches!(&decs[i], Dec::Ok(s) if s.get_width() == 0 || s.get_height() == 0)) {
+        counts.push("load:zero-size-image".into());
+    }
+    if (c.fw, c.fh) != (8, 16) {
+        counts.push("load:custom-font".into());
+    }
+    let name = format!("x.{}", c.ext);
+    let file = c.file.clone();
+    let r = catch(move || Buffer::from_bytes(std::path::Path::new(&name), true, &file));
+    let obs = match r {
+        Err(loc) => {
+            let k = panic_key(&loc);
+            fails.push((k.clone(), "loading a file with sixel sequences panicked".into()));
+            LoadObs { obs: format!("panic {}", k), fails, counts, n_layers: 0 }
+        }
+        Ok(Err(_)) => {
+            if !any_err {
+                fails.push(("load_err".into(), "Buffer::from_bytes failed although every sixel decode succeeds".into()));
+            }
+            counts.push("load:err".into());
+            LoadObs { obs: "err".into(), fails, counts, n_layers: 0 }
+        }
+        Ok(Ok(buf)) => {
+            let fd = buf.get_font_dimensions();
+            if (fd.width as i64, fd.height as i64) != (c.fw, c.fh) {
+                fails.push(("load_font".into(), format!("font dimensions {}x{}, the case expects {}x{}", fd.width, fd.height, c.fw, c.fh)));
+            }
+            if !buf.layers[0].sixels.is_empty() || !buf.sixel_threads.is_empty() {
+                fails.push((
+                    "load_leftover".into(),
+                    format!("{} sixels left on layer 0, {} decodes still queued after the load", buf.layers[0].sixels.len(), buf.sixel_threads.len()),
+                ));
+            }
+            let mut out: Vec<String> = vec![];
+            let mut ids: Vec<usize> = vec![];
+            for l in buf.layers.iter().skip(1) {
+                let num: String = l.properties.title.chars().filter(|ch| ch.is_ascii_digit()).collect();
+                if l.sixels.len() != 1 || !matches!(l.role, icy_engine::Role::Image) {
+                    fails.push(("load_layer_shape".into(), format!("layer '{}' has role {:?} and {} sixels", num, l.role, l.sixels.len())));
+                    out.push(format!("{}:?", num));
+                    continue;
+                }
+                let sx = &l.sixels[0];
+                let off = l.get_offset();
+                let sz = l.get_size();
+                let (w, h) = (sx.get_width() as i64, sx.get_height() as i64);
+                if sx.picture_data.len() as i64 != w * h * 4 {
+                    fails.push(("load_rect".into(), format!("image layer {}: picture_data.len()={} but {}x{}", num, sx.picture_data.len(), w, h)));
+                }
+                if (sz.width as i64, sz.height as i64) != (ceil_div(w, c.fw), ceil_div(h, c.fh)) {
+                    fails.push((
+                        "load_cells".into(),
+                        format!("image layer {}: {}x{} cells for {}x{} pixels with a {}x{} font", num, sz.width, sz.height, w, h, c.fw, c.fh),
+                    ));
+                }
+                if sx.position != Position::default() {
+                    fails.push(("load_sixel_pos".into(), format!("image layer {}: inner sixel at {:?}", num, sx.position)));
+                }
+                // which sequence is it? (identical images: the newest one, the only one that can survive)
+                let id = (0..decs.len())
+                    .rev()
+                    .find(|&i| matches!(&decs[i], Dec::Ok(e) if e.position == off && e.get_size() == sx.get_size() && e.picture_data == sx.picture_data))
+                    .unwrap_or(99);
+                ids.push(id);
+                out.push(format!(
+                    "{}:{}@{},{}:{}x{}:{}x{}:{},{}",
+                    num, id, off.x, off.y, sz.width, sz.height, w, h, sx.vertical_scale, sx.horizontal_scale
+                ));
+            }
+            let want: Vec<usize> = expect.iter().rev().cloned().collect();
+            if any_err {
+                fails.push(("load_err_ignored".into(), "a sixel decode returns an error but the load succeeded".into()));
+            } else if ids != want {
+                fails.push((
+                    "load_images".into(),
+                    format!(
+                        "{} sixel sequences arrived, the covering rule leaves {:?} (newest first) but the image layers hold {:?}",
+                        order.len(), want, ids
+                    ),
+                ));
+            }
+            let n = out.len();
+            LoadObs { obs: format!("ok {}{}", n, out.iter().map(|s| format!(" {}", s)).collect::<String>()), fails, counts, n_layers: n }
+        }
+    };
+    obs
+}
+
+fn run_loads(run: &mut Run, cases: &[LoadCase]) {
+    if cases.is_empty() {
+        return;
+    }
+    gate_open(true);
+    // every load sleeps >= 50 ms per poll: overlap the waiting
+    let n_threads = 16usize.min(cases.len());
+    let results: Vec<Mutex<Option<LoadObs>>> = cases.iter().map(|_| Mutex::new(None)).collect();
+    let next = std::sync::atomic::AtomicUsize::new(0);
+    std::thread::scope(|s| {
+        for _ in 0..n_threads {
+            s.spawn(|| loop {
+                let i = next.fetch_add(1, Ordering::SeqCst);
+                if i >= cases.len() {
+                    break;
+                }
+                let o = observe_load(&cases[i]);
+                *results[i].lock().unwrap() = Some(o);
+            });
+        }
+    });
+    gate_open(false);
+    for (c, r) in cases.iter().zip(results) {
+        let o = r.into_inner().unwrap().unwrap();
+        let replay = c.replay();
+        for (k, what) in &o.fails {
+            run.oracle_fail(k, &replay, what);
+        }
+        for k in &o.counts {
+            run.count(k);
+        }
+        run.count(&format!("load:layers={}", o.n_layers));
+        if o.n_layers > 0 {
+            run.nontrivial(fnv(replay.bytes().map(|b| b as u64)));
+        }
+        run.case(&c.op(), &o.obs);
+    }
+}
+
+const LOAD_EXTS: &[&str] = &["ans", "ans", "ans", "ice", "diz", "avt", "pcb", "msg", "an1", "xyz", "asc"];
+
+fn load_payload(rng: &mut Rng, i: usize) -> Vec<u8> {
+    match rng.below(16) {
+        0 => b"??-??".to_vec(),
+        1 => vec![],
+        2 => b"\"1;1;0;0".to_vec(),
+        3 => format!("\"1;1;{};{}#{}!{}~", rng.range(0, 20), rng.range(0, 20), i + 1, rng.range(1, 20)).into_bytes(),
+        4 => format!("\"1;1;{};0!8~-!8~", rng.range(0, 12)).into_bytes(),
+        5 => format!("\"{};{}??", rng.range(0, 9), rng.range(0, 9)).into_bytes(),
+        6 => b"?".to_vec(),
+        7 | 8 => gen_structured(rng),
+        9 => format!("#{}!{}?-~", i + 1, rng.range(0, 9)).into_bytes(),
+        _ => block_payload(i + 1, *rng.pick(&[4i64, 8, 16, 24, 9]), rng.range(1, 3)),
+    }
+}
+
+const DCS_PARAMS: &[&str] = &["", "", "", "0", "1", "2", "3", "4", "5", "6", "7", "9;1", "0;1;0", ";1", "2;0", "1;1;1;1", "10", "2147483647", ";;"];
+
+/// a file: text / cursor moves / colour changes, 0..=5 sixel sequences, other DCS strings, optionally a custom font
+fn gen_load_case(rng: &mut Rng) -> LoadCase {
+    let ext = rng.pick(LOAD_EXTS).to_string();
+    let mut file: Vec<u8> = vec![];
+    let mut specs: Vec<Spec> = vec![];
+    let (mut x, mut y) = (0i64, 0i64);
+    let (mut fw, mut fh) = (8i64, 16i64);
+    let n = match rng.below(10) {
+        0 => 0,
+        1 | 2 => 1,
+        3 | 4 => 2,
+        5 | 6 => 3,
+        7 | 8 => 4,
+        _ => 5,
+    } as usize;
+    let font_at = if rng.chance(1, 5) { Some(rng.below(n as u64 + 1) as usize) } else { None };
+    let with_err = rng.chance(1, 14);
+    let with_clear = rng.chance(1, 8);
+    let err_at = rng.below(n.max(1) as u64) as usize;
+    let bom = ext != "asc" && rng.chance(1, 25);
+    if bom {
+        file.extend([0xEF, 0xBB, 0xBF]);
+    }
+    let cluster = rng.chance(1, 2); // positions from a small menu so that images cover each other
+    let push_dcs = |file: &mut Vec<u8>, specs: &mut Vec<Spec>, x: i64, y: i64, dcs: Vec<u8>| {
+        file.extend(b"\x1bP");
+        file.extend(&dcs);
+        file.extend(b"\x1b\\");
+        specs.push(Spec { px: x as i32, py: y as i32, payload: dcs });
+    };
+    for i in 0..=n {
+        if font_at == Some(i) {
+            let (w, h) = *rng.pick(&[(8i64, 8i64), (8, 14), (8, 1), (5, 7), (12, 10), (16, 20), (9, 16), (8, 16)]);
+            let data = if w == 8 && rng.chance(1, 2) {
+                vec![0u8; 256 * h as usize]
+            } else {
+                let cs = (h * ((w + 7) / 8)) as u32;
+                let mut d = crate::fontgen::psf2_header(0, 32, 1, cs, h as u32, w as u32);
+                d.extend(vec![0u8; cs as usize]);
+                d
+            };
+            let dcs = format!("CTerm:Font:0:{}", b64(&data)).into_bytes();
+            push_dcs(&mut file, &mut specs, x, y, dcs);
+            fw = w;
+            fh = h;
+        }
+        if i == n {
+            break;
+        }
+        // what separates this sequence from the previous one
+        let sep = if i == 0 && bom { 1 } else if with_clear && rng.chance(1, 4) { 8 } else { rng.below(8) };
+        match sep {
+            0 => {}
+            1 | 2 => {
+                let (r, c) = if cluster { (rng.range(1, 3), rng.range(1, 4)) } else { (rng.range(1, 30), rng.range(1, 80)) };
+                file.extend(format!("\x1b[{};{}H", r, c).bytes());
+                x = c - 1;
+                y = r - 1;
+            }
+            3 => {
+                let k = rng.range(1, 6).min(79 - x).max(0);
+                for _ in 0..k {
+                    file.push(*rng.pick(b"abcXYZ .#" as &[u8]));
+                }
+                x += k;
+            }
+            4 => {
+                file.extend(b"\r\n");
+                x = 0;
+                y += 1;
+            }
+            5 => {
+                file.extend(format!("\x1b[{};{}m", rng.range(30, 37), rng.range(40, 47)).bytes());
+                let k = rng.range(0, 3).min(79 - x).max(0);
+                for _ in 0..k {
+                    file.push(b'x');
+                }
+                x += k;
+            }
+            8 => {
+                // clear-screen: the decodes queued so far are dropped
+                let seq: &[u8] = match ext.as_str() {
+                    "msg" => *rng.pick(&[&b"\x01L"[..], b"\x1b[2J", b"\x0c"]),
+                    _ => *rng.pick(&[&b"\x1b[2J"[..], b"\x1b[3J", b"\x0c"]),
+                };
+                file.extend(seq);
+                specs.push(clear_marker());
+                x = 0;
+                y = 0;
+            }
+            6 => {
+                // a DCS string that is not a sixel
+                let dcs: &[u8] = *rng.pick(&[&b"xq~~"[..], b"1;0;0!z414243", b"$q\"p", b"CTerm:Font:0:AAAA", b"12", b""]);
+                push_dcs(&mut file, &mut specs, x, y, dcs.to_vec());
+            }
+            _ => {
+                if ext == "pcb" {
+                    file.extend(b"@X1F");
+                } else {
+                    file.extend(b"\x1b[0m");
+                }
+            }
+        }
+        let mut pl = if with_err && i == err_at { rng.pick(&[b" ".to_vec(), b"#1;2;3~".to_vec(), b"!~".to_vec(), b"~\n~".to_vec()]).clone() } else { load_payload(rng, i) };
+        if ext == "pcb" {
+            for b in pl.iter_mut() {
+                if *b == b'@' {
+                    *b = b'A';
+                }
+            }
+        }
+        let mut dcs = rng.pick(DCS_PARAMS).as_bytes().to_vec();
+        dcs.push(b'q');
+        dcs.extend(pl);
+        push_dcs(&mut file, &mut specs, x, y, dcs);
+    }
+    match rng.below(4) {
+        0 => file.extend(b"\r\n"),
+        1 => file.extend(b"end"),
+        2 => file.extend(b"\x1b[5;5Hz\r\n\r\n"),
+        _ => {}
+    }
+    if ext == "asc" {
+        // the ASCII parser knows no escape sequences: nothing arrives
+        specs.clear();
+        fw = 8;
+        fh = 16;
+    }
+    // completion schedule for the model (the real one is the OS scheduler's): a random ordered partition of the arrivals
+    let mut ids: Vec<usize> = live_sixels(&specs);
+    for i in (1..ids.len()).rev() {
+        ids.swap(i, rng.below(i as u64 + 1) as usize);
+    }
+    let mut groups: Vec<Vec<String>> = vec![];
+    for id in ids {
+        if groups.is_empty() || rng.chance(1, 2) {
+            groups.push(vec![]);
+        }
+        if rng.chance(1, 6) {
+            groups.push(vec![]); // a sleep during which nothing finishes
+        }
+        groups.last_mut().unwrap().push(id.to_string());
+    }
+    let sched = if groups.is_empty() { "-".to_string() } else { groups.iter().map(|g| g.join(".")).collect::<Vec<_>>().join("/") };
+    LoadCase { ext, fw, fh, sched, file, specs }
+}
+
+/// hand-made files: the zero-size shapes, a covering pile, many in a row
+fn boundary_loads() -> Vec<LoadCase> {
+    let mk = |ext: &str, seqs: &[(i64, i64, &[u8])]| {
+        let mut file = vec![];
+        let mut specs = vec![];
+        for (x, y, dcs) in seqs {
+            file.extend(format!("\x1b[{};{}H\x1bP", y + 1, x + 1).bytes());
+            file.extend(*dcs);
+            file.extend(b"\x1b\\");
+            specs.push(Spec { px: *x as i32, py: *y as i32, payload: dcs.to_vec() });
+        }
+        let ids: Vec<String> = (0..specs.len()).map(|i| i.to_string()).collect();
+        LoadCase { ext: ext.to_string(), fw: 8, fh: 16, sched: if ids.is_empty() { "-".into() } else { ids.join(".") }, file, specs }
+    };
+    let mut v = vec![
+        mk("ans", &[]),
+        mk("ans", &[(0, 0, b"q#1!4~")]),
+        mk("ans", &[(0, 0, b"q??-??")]),
+        mk("ans", &[(0, 0, b"q")]),
+        mk("ans", &[(0, 0, b"q\"1;1;0;0")]),
+        mk("ans", &[(0, 0, b"q?")]),
+        mk("ans", &[(0, 0, b"q#1!4~"), (2, 1, b"q??-??"), (4, 2, b"q"), (6, 3, b"q\"1;1;0;0"), (8, 4, b"0;1q#2!20~-!20~")]),
+        mk("pcb", &[(3, 3, b"q??-??"), (3, 3, b"q"), (0, 0, b"q#1!8~")]),
+        mk("avt", &[(0, 0, b"q#1!8~-!8~"), (0, 0, b"q#2!16~-!16~-!16~"), (1, 0, b"q#3!8~")]),
+        mk("ans", &[(0, 0, b"q#2!16~-!16~-!16~"), (0, 0, b"q#1!8~-!8~"), (1, 0, b"q#3!8~"), (0, 0, b"2q#4!100~-!100~-!100~-!100~")]),
+        mk("ans", &[(0, 0, b"q#1!8~"), (0, 0, b"q "), (5, 5, b"q#1!8~")]),
+        mk("msg", &[(79, 40, b"q~"), (0, 0, b"q\"1;1;9;17~")]),
+        mk("an1", &[(1, 1, b"q\"1;1;8;16!8~-!8~-!8N"), (1, 1, b"q\"1;1;9;16!8~"), (1, 1, b"q\"1;1;8;17!8~")]),
+    ];
+    // no cursor moves at all: every sequence at (0,0)
+    let mut c = mk("ans", &[]);
+    for (i, dcs) in [&b"q~~"[..], b"q??", b"q-", b"q$"].iter().enumerate() {
+        c.file.extend(b"\x1bP");
+        c.file.extend(*dcs);
+        c.file.extend(b"\x1b\\");
+        c.specs.push(Spec { px: 0, py: 0, payload: dcs.to_vec() });
+        c.sched = (0..=i).rev().map(|k| k.to_string()).collect::<Vec<_>>().join("/");
+    }
+    v.push(c);
+    v
+}
+
+fn replay_load(s: &str) -> Option<LoadCase> {
+    let parts: Vec<&str> = s.split('|').collect();
+    if parts.len() < 5 {
+        return None;
+    }
+    let mut specs = vec![];
+    for p in &parts[5..] {
+        if *p == "c" {
+            specs.push(clear_marker());
+            continue;
+        }
+        let f: Vec<&str> = p.split(',').collect();
+        if f.len() != 3 {
+            return None;
+        }
+        specs.push(Spec { px: f[0].parse().ok()?, py: f[1].parse().ok()?, payload: unhex(f[2]) });
+    }
+    Some(LoadCase { ext: parts[0].to_string(), fw: parts[1].parse().ok()?, fh: parts[2].parse().ok()?, sched: parts[3].to_string(), file: unhex(parts[4]), specs })
+}
+
+/// one DCS string at caret (px,py) on the terminal path: what `execute_dcs` hands to the decode thread
+fn one_dcs(run: &mut Run, px: i32, py: i32, dcs: &[u8]) {
+    gate_open(true);
+    let replay = format!("d:{}|{}|{}", px, py, hex(dcs));
+    let mut buf = Buffer::new((80, 25));
+    buf.is_terminal_buffer = true;
+    let mut caret = Caret::default();
+    let mut parser = ansi::Parser::default();
+    let text = format!("\x1b[{};{}H\x1bP{}\x1b\\", py + 1, px + 1, to_string(dcs));
+    let dcs_owned = dcs.to_vec();
+    let r = {
+        let b = std::panic::AssertUnwindSafe((&mut buf, &mut caret, &mut parser));
+        catch(move || {
+            let b = b;
+            let (buf, caret, parser) = b.0;
+            let mut before = Position::default();
+            let n = text.chars().count();
+            for (k, ch) in text.chars().enumerate() {
+                if k + dcs_owned.len() + 4 == n {
+                    before = caret.get_position(); // just before ESC P
+                }
+                let _ = parser.print_char(buf, 0, caret, ch);
+            }
+            before
+        })
+    };
+    let obs = match r {
+        Err(loc) => {
+            let k = panic_key(&loc);
+            run.oracle_fail(&k, &replay, "the ANSI parser panicked on a DCS string");
+            format!("panic {}", k)
+        }
+        Ok(before) => {
+            let after = caret.get_position();
+            match buf.sixel_threads.len() {
+                0 => "nosixel".to_string(),
+                1 => {
+                    if before != after {
+                        run.oracle_fail("dcs_caret", &replay, &format!("the caret moved from {:?} to {:?} while a sixel sequence was read", before, after));
+                    }
+                    match buf.sixel_threads.pop_front().unwrap().join() {
+                        Err(_) => "sixel panic".to_string(),
+                        Ok(Err(e)) => format!("sixel err {}", variant_name(e.downcast_ref::<ParserError>())),
+                        Ok(Ok(sx)) => {
+                            let (w, h, len) = (sx.get_width() as i64, sx.get_height() as i64, sx.picture_data.len() as i64);
+                            if len != w * h * 4 {
+                                run.oracle_fail("rect", &replay, &format!("picture_data.len()={} but width={} height={}", len, w, h));
+                            }
+                            if w > 0 && h > 0 {
+                                run.nontrivial(fnv(replay.bytes().map(|b| b as u64)));
+                            }
+                            format!(
+                                "sixel ok {} {} {} scale={},{} at={},{} caret={},{}",
+                                w, h, len, sx.vertical_scale, sx.horizontal_scale, sx.position.x, sx.position.y, after.x, after.y
+                            )
+                        }
+                    }
+                }
+                k => {
+                    run.oracle_fail("sixel_spawn", &replay, &format!("one DCS string queued {} decodes", k));
+                    format!("spawned {}", k)
+                }
+            }
+        }
+    };
+    gate_open(false);
+    run.count(&format!("dcs:{}", obs.split(' ').take(2).collect::<Vec<_>>().join("-")));
+    run.case(&format!("sixelload dcs {} {} {}", px, py, hex(dcs)), &obs);
+}
+
+/// the `Sixel` struct as the terminal and the loader use it: pixel rectangle, cell rectangle, the covering test
+fn geometry_cases(run: &mut Run, rng: &mut Rng, n: usize) {
+    use icy_engine::Size;
+    let mk = |k: usize, px: i32, py: i32, w: i32, h: i32| -> Sixel {
+        if k % 2 == 0 {
+            let mut s = Sixel::from_data((w, h), 1, 1, vec![]);
+            s.position = Position::new(px, py);
+            s
+        } else {
+            let mut s = Sixel::new(Position::new(px, py));
+            if k % 4 == 1 {
+                s.set_width(w);
+                s.set_height(h);
+            } else {
+                s.set_size(Size::new(w, h));
+            }
+            s
+        }
+    };
+    for k in 0..n {
+        let (fw, fh) = *rng.pick(&[(8i32, 16i32), (8, 8), (8, 14), (9, 16), (5, 7), (12, 10), (16, 32), (1, 1)]);
+        let dim = |rng: &mut Rng| match rng.below(6) {
+            0 => 0,
+            1 => rng.range(1, 9) as i32,
+            2 => (rng.range(0, 6) as i32) * fw.max(fh) + rng.range(-1, 1).max(0) as i32,
+            3 => rng.range(0, 1_000_000) as i32,
+            _ => rng.range(0, 64) as i32,
+        };
+        let (px, py, w, h) = (rng.range(0, 79) as i32, rng.range(0, 60) as i32, dim(rng), dim(rng));
+        let a = mk(k, px, py, w, h);
+        let fd = Size::new(fw, fh);
+        let sr = a.get_screen_rect(fd);
+        let cr = a.as_rectangle(fd);
+        if (a.get_width(), a.get_height()) != (w, h) || a.get_size() != Size::new(w, h) {
+            run.oracle_fail("sixel_size_accessors", &format!("{} {}", w, h), "Sixel size accessors disagree");
+        }
+        run.case(
+            &format!("sixelload geom {} {} {} {} {} {}", fw, fh, px, py, w, h),
+            &format!(
+                "screen={},{},{},{} cells={},{},{},{}",
+                sr.start.x, sr.start.y, sr.size.width, sr.size.height, cr.start.x, cr.start.y, cr.size.width, cr.size.height
+            ),
+        );
+        // the covering test on a nearby second rectangle (shared borders, one pixel more / less)
+        let near = |rng: &mut Rng, v: i32| (v + rng.range(-2, 2) as i32).max(0);
+        let (bx, by) = (near(rng, px), near(rng, py));
+        let (bw, bh) = match rng.below(4) {
+            0 => (w, h),
+            1 => (near(rng, w), near(rng, h)),
+            2 => ((w - (bx - px) * fw).max(0), (h - (by - py) * fh).max(0)), // same bottom-right corner
+            _ => (dim(rng), dim(rng)),
+        };
+        let b = mk(k + 1, bx, by, bw, bh);
+        let cov = sr.contains_rect(&b.get_screen_rect(fd));
+        run.count(if cov { "geom:covers" } else { "geom:does-not-cover" });
+        run.case(&format!("sixelload covers {} {} {} {} {} {} {} {} {} {}", fw, fh, px, py, w, h, bx, by, bw, bh), if cov { "T" } else { "F" });
+    }
+}
+
+fn gen_dcs(rng: &mut Rng) -> Vec<u8> {
+    let mut v: Vec<u8> = vec![];
+    match rng.below(12) {
+        0 => v.extend(rng.pick(&[&b"CTerm:Font:"[..], b"CTerm:Font:9:AAAA", b"1;0;0!z4142", b"!z", b"1!zq", b"q", b"", b";", b"1;", b"x", b"Q~", b"1;1p", b" q~"]).iter()),
+        1 => {
+            // random parameter characters
+            for _ in 0..rng.range(0, 6) {
+                v.push(*rng.pick(b"0123456789;;" as &[u8]));
+            }
+            v.push(*rng.pick(b"qqqq!z" as &[u8]));
+            v.extend(gen_tokens(rng, 6));
+        }
+        _ => {
+            v.extend(rng.pick(DCS_PARAMS).bytes());
+            v.push(b'q');
+            let pl = match rng.below(4) {
+                0 => gen_tokens(rng, 12),
+                1 => gen_structured(rng),
+                2 => load_payload(rng, 1),
+                _ => rng.pick(&boundary_payloads()).clone(),
+            };
+            v.extend(pl);
+        }
+    }
+    // the DCS recorder ends at ESC: keep the string free of it (and of code points the byte protocol cannot carry)
+    v.retain(|b| *b != 0x1b);
+    v
+}
+
 fn one_input(run: &mut Run, input: &str) {
     let input = input.trim();
     if let Some(q) = input.strip_prefix("q:") {
         replay_scenario(run, q);
+    } else if let Some(l) = input.strip_prefix("l:") {
+        if let Some(c) = replay_load(l) {
+            run_loads(run, &[c]);
+        }
+    } else if let Some(d) = input.strip_prefix("d:") {
+        let f: Vec<&str> = d.split('|').collect();
+        if f.len() == 3 {
+            one_dcs(run, f[0].parse().unwrap_or(0), f[1].parse().unwrap_or(0), &unhex(f[2]));
+        }
     } else {
         one_payload(run, &unhex(input));
     }
@@ -873,10 +1586,26 @@ pub fn run(run: &mut Run, seed: u64, thorough: bool, replay: Option<&str>, corpu
         }
     }
 
+    // ---------------- (c) file loading and the DCS hand-off
+    let t_l = Instant::now();
+    let mut loads = boundary_loads();
+    for _ in 0..(if thorough { 12_000 } else { 700 }) {
+        loads.push(gen_load_case(&mut rng));
+    }
+    run_loads(run, &loads);
+    run.extra.push(("load_phase_ms".into(), t_l.elapsed().as_millis().to_string()));
+    for _ in 0..(if thorough { 20_000 } else { 1200 }) {
+        let d = gen_dcs(&mut rng);
+        let (px, py) = (rng.range(0, 79) as i32, rng.range(0, 24) as i32);
+        one_dcs(run, px, py, &d);
+    }
+
+    geometry_cases(run, &mut rng, if thorough { 20_000 } else { 1500 });
+
     // ---------------- (b) schedules
     let t_q = Instant::now();
     for k in 1..=4usize {
-        let n_sets = if thorough { 12 } else { 3 };
+        let n_sets = if thorough { 12 } else { 4 };
         let sets = spec_sets(&mut rng, k, n_sets);
         let perms = permutations(k);
         for specs in sets.iter() {
@@ -888,6 +1617,29 @@ pub fn run(run: &mut Run, seed: u64, thorough: bool, replay: Option<&str>, corpu
                 }
             }
         }
+        // a clear-screen while decodes are in flight / after some were shown: nothing that arrived before it may appear
+        for (j, perm) in perms.iter().enumerate() {
+            let specs = &sets[j % sets.len()];
+            for cut in 0..=k {
+                // `cut` completions (each followed by a poll), clear, the remaining completions, polls, then one more arrival
+                let mut ev: Vec<Ev> = (0..k).map(Ev::Arrive).collect();
+                for &i in &perm[..cut] {
+                    ev.push(Ev::Finish(i));
+                    ev.push(Ev::Poll);
+                }
+                ev.push(Ev::Clear((j + cut) as u8 % 3));
+                ev.push(Ev::Poll);
+                for &i in &perm[cut..] {
+                    ev.push(Ev::Finish(i));
+                    ev.push(Ev::Poll);
+                }
+                ev.push(Ev::Arrive(perm[0]));
+                ev.push(Ev::Poll);
+                ev.push(Ev::Finish(perm[0]));
+                ev.push(Ev::Poll);
+                scenario(run, specs, &ev);
+            }
+        }
         // arrivals interleaved with completions and polls
         for _ in 0..(if thorough { 2500 } else { 300 }) {
             let sets = spec_sets(&mut rng, k, 4);
@@ -897,8 +1649,8 @@ pub fn run(run: &mut Run, seed: u64, thorough: bool, replay: Option<&str>, corpu
         }
     }
     if thorough {
-        // a decode thread that PANICS (`join()` is Err => the handle is dropped and the loop continues): the only
-        // panicking payload left after the fixes is the cursor overflow of the known finding (0.9 s per decode)
+        // a decode that runs for ~1 s and then FAILS (`result?`): the cursor overflow payload, an overflow panic
+        // before the three cursor fixes (no payload is known to panic any more: theorem `sixel_total`)
         let specs = vec![
             Spec { px: 0, py: 0, payload: block_payload(1, 8, 2) },
             Spec { px: 0, py: 0, payload: b"!357913942-~".to_vec() },
@@ -908,6 +1660,6 @@ pub fn run(run: &mut Run, seed: u64, thorough: bool, replay: Option<&str>, corpu
         scenario(run, &specs, &canonical(3, &[1, 0, 2], 0b101, false, 2));
     }
     run.extra.push(("queue_phase_ms".into(), t_q.elapsed().as_millis().to_string()));
-    run.extra.push(("exhaustive_orders_and_poll_placements".into(), format!("k<=4: all k! completion orders x all 2^k poll placements ({} geometry sets per k)", if thorough { 12 } else { 3 })));
+    run.extra.push(("exhaustive_orders_and_poll_placements".into(), format!("k<=4: all k! completion orders x all 2^k poll placements ({} geometry sets per k)", if thorough { 12 } else { 4 })));
     run.extra.push(("blocked_polls".into(), BLOCKED_SCENARIOS.load(Ordering::SeqCst).to_string()));
 }
